@@ -240,7 +240,7 @@ OnVerify(ev) ==
   /\ Chk("pair.format", ev.pair # 0 /\ (\E p \in st.vpairs : p.id = ev.pair),
          \A p \in {q \in st.vpairs : q.id = ev.pair} : p.ok = implok /\ (implok => p.claims = claims))
   \* (the model's expectation was computed for the instant the scenario was set up; if the clock has since moved the
-  \*  call into the guard band - r.v = "free" for the logged interval - nothing is asserted about the decision)
+  \*  call into the unasserted zone - r.v = "free" for the logged interval - nothing is asserted about the decision)
   /\ Chk("scn.expect.reject", ev.expect # NONE /\ ev.expect.v = "reject" /\ r.v # "free", ~implok)
   /\ Chk("scn.expect.claims", ev.expect # NONE /\ ev.expect.v # "reject" /\ implok, claims = ev.expect.claims)
   /\ Chk("scn.model.agrees", ev.expect # NONE /\ r.v # "free" /\ ev.expect.v # "free", (ev.expect.v = "reject") = (r.v = "reject"))
